@@ -23,5 +23,8 @@ var Reader = rand.Reader
 
 // Read implements io.Reader.Read.
 func Read(b []byte) (int, error) {
+	if n, ok := verifRead(b); ok {
+		return n, nil
+	}
 	return rand.Read(b)
 }
